@@ -426,7 +426,6 @@ UNUSUAL = [
     # walrus
     ['if (n_ := len(a)) > 1:', '  x = n_'], ['x = [n_ := 1, n_ ** 2]'], ['x = (n_ := 5) + n_'],
     ['x = [(m_ := q) for q in range(2)]'], ['x = a[(n_ := 0)]'],
-    ['fuel_90 = 0', 'while (n_ := fuel_90) < 2:', '  fuel_90 += 1'],
     # chained comparisons without calls
     ['x = y < z < 3'], ['x = 0 < y <= z != 4'], ['x = y is not None is not z'], ['x = y in a not in [a]'],
     ['x = 0 < y == z'], ['if 0 <= y < z < 10 > x:', '  x = 1'], ['x = (y < z) < 3'], ['x = y < (z < 3)'],
@@ -495,6 +494,10 @@ STORE_SHAPES = [
 KNOWN_TREE_FINDINGS = [
     ('known-walrus-arg', 'namedexpr-target-wrapped-in-ld', ['x = h1(n_ := 3)']),
     ('known-annassign-nonlocal', 'annotated-state-variable-declared-nonlocal', ['if c():', '  x: int = 1']),
+    # the walrus target of a `while` test is bound inside the generated loop_test function, so the enclosing function
+    # has no binding for it; a later block that carries it as state declares it nonlocal -> SyntaxError
+    ('known-walrus-while-test', 'walrus-target-bound-in-generated-loop-test',
+     ['fuel_90 = 0', 'while (n_ := fuel_90) < 2:', '  fuel_90 += 1', 'if c():', '  n_ = 7', 'x = n_']),
 ]
 
 _CLAUSE = re.compile(r'\s*(else|elif|except|finally)\b')
